@@ -74,7 +74,7 @@ def run(ctx):
     ctx.cov["trusted_base"] = TRUSTED
     ctx.assumptions = [
         "the models of ManualHeap / VM surfaces / std.bytes are the code: checked by the contract tie on seeded histories",
-        "accounting is the manual heap's bytes_allocated(); std.bytes buffers are not charged anywhere in the code (noted in notes/C09.md)",
+        "bytes_allocated() = 8 bytes per live manual slot + (since /repo 0d876af) one byte per byte of every live std.bytes buffer; the model keeps the two parts apart (mem_charged) and the tie observes the counter on every surface; the heap-limit refusal of byte-buffer creation is C10's subject (byte totals are kept far below the limit here, the MAX_ALLOC boundary scenario uses a VM with room for one such buffer)",
     ]
     proved = ctx.prove("C09", extracted=["ManualMem", "ValueConsts", "MemChecks"])
     try:
@@ -193,7 +193,7 @@ def run(ctx):
                 # ---- correspondence with the Coq model
                 total += len(cases)
                 for q, o in cases:
-                    steps += o.count(";") // 3 + 1 if surface != "bytes" else o.count(";") // 2 + 1
+                    steps += o.count(";") // 3 + 1
                     if q.count(";") >= 3:
                         nontrivial.add(q)
                 fn, eqb = ("bobs", "zlist_eqb") if surface == "bytes" else ("mobs", "zlist_eqb")
@@ -211,7 +211,7 @@ def run(ctx):
                     mo, _ = vlib.coq_eval_terms("c09", IMPORTS + "\nLocal Open Scope N_scope.", [f"{fn} ({q})" for q, _ in bad])
                     dis, unknown, shown = [], len(fails) - len(bad), set()
                     for (q, o), m, txt in zip(bad, mo, bad_texts):
-                        d = first_divergence(o, m, 2 if surface == "bytes" else 3)
+                        d = first_divergence(o, m, 3)
                         # the history up to and including the first divergent step, in --replay-ops form
                         upto = "; ".join(txt.split("; ")[: (d["step"] + 1) if d else None])
                         rec = {"query": q[:1500], "implementation": o[:800], "model": (m or "")[:800],
